@@ -1,4 +1,6 @@
 """C05  NFFT only chooses the sampling grid of one underlying spectrum."""
+from math import gcd
+
 import numpy as np
 
 import proto
@@ -8,13 +10,49 @@ from common import rel
 TRUSTED_BASE = [
     "the grid theorems (bin c*j of the cN-point DFT of a zero-padded sequence = bin j of its N-point DFT) are about the model; the tie "
     "to the code is the class-glue correspondence at both NFFT values of every pair plus the per-estimator correspondences",
+    "the NFFT-free ingredients of the numpy references written in the oracles are taken from the library: the Slepian tapers and their "
+    "eigenvalues (spectrum.dpss has no NFFT argument), the lag estimates (spectrum.xcorr / CORRELATION) and the lag / data windows "
+    "(spectrum.Window); everything indexed by NFFT (transforms, negative-lag placement, adaptive iteration, frequency axis) is "
+    "recomputed in the oracle by direct evaluation of the discrete-time Fourier transform at the grid frequencies",
 ]
-PARTIAL = ["adaptive multitaper: per evaluation the value at a frequency is independent of NFFT, but the global stopping rule may stop "
-           "one iteration apart on two grids: equality to the iteration tolerance only (oracle tolerance 2e-3 relative)"]
+PARTIAL = ["adaptive multitaper: per evaluation the value at a frequency is independent of NFFT, but the global stopping rule (mean "
+           "change below 0.0005*sigma^2/NFFT) stops after a number of iterations that depends on the grid: across two grids equality to "
+           "the iteration tolerance only (oracle tolerance 2e-3 relative, max-norm; measured worst 5.7e-4 over 4500 random cases, so "
+           "it is not tightened); on EACH grid the estimate, the weight table and the per-taper spectra are compared (1e-9 "
+           "elementwise) with an independent per-frequency restatement of the iteration, and the two grids must agree to 1e-10 "
+           "elementwise whenever their weight tables agree at the common bins"]
 ASSUMPTIONS = ["admissible NFFT: >= N (periodogram, multitaper), >= 2*lag+1 (correlogram), >= 2*order (minimum variance), > model "
-               "order (parametric and subspace classes)"]
-RULE = ("random real/complex data x 14 class variants x pairs (NFFT, c*NFFT), c in {2, 3}, NFFT even and odd; model parameters "
-        "(AR, MA, variance, reflection coefficients, singular values, tapers/eigenvalues) compared across NFFT")
+               "order (parametric and subspace classes)",
+               "estimator parameters inside each estimator's documented domain for the data length (orders, lags, NW < N/2, k <= 2NW)",
+               "float32 / complex64 / integer / list data are accepted forms of the same samples (results are computed in double "
+               "precision by the library, so the same tolerances apply)"]
+RULE = ("random real/complex data of length N in {7, 9, 13, 23, 24, 25, 64, 101, 300} x 14 class variants x pairs (NFFT, c*NFFT), "
+        "c in {2, 3, 4, 5, 7, 32}, NFFT even / odd / power of two / up to 2048 (fine grid up to 4096), at the smallest admissible NFFT "
+        "and one above, and non-multiple pairs compared at the gcd bins; sampling frequency in {1, 0.5, 1000, 44100}; values compared "
+        "elementwise (|a-b| <= 1e-10*max(|a|,|b|) + 1e-13*peak) and in max-norm (1e-7); frequency axis read from frequencies() at both "
+        "NFFT values; NFFT setter on a live object against fresh objects; get_converted_psd matched by frequency value; model "
+        "parameters (AR, MA, variance, reflection coefficients, singular values, eigenvalues, multitaper weights, per-taper spectra) "
+        "compared across NFFT with the exact expected attribute set per class; options (cross-correlogram, correlation method / norm, "
+        "automatic subspace dimension, Yule-Walker norm, Burg order criteria, detrend, 2-D periodogram); input forms int / list / "
+        "float32 / complex64")
+
+ELEM_TOL = 1e-10        # elementwise: |a-b| <= ELEM_TOL * (max(|a|,|b|) + 1e-3 * peak)   (= 1e-10 relative + 1e-13 * peak absolute)
+ADAPT_TOL = 2e-3        # adaptive multitaper across two grids (max-norm, see PARTIAL)
+ADAPT_W_TOL = 0.5       # adaptive weight tables across two grids (max-norm; the weights react more strongly than the estimate to the
+#                         iteration count: measured up to 3.5e-2 on dominant-tone records; the sharp test is the reference below)
+REF_TOL = 1e-9          # library against the numpy references of this file (elementwise, same floor)
+
+# attributes holding model parameters that must be present (not None) after the PSD has been read, per class
+EXPECTED_KEYS = {
+    "Periodogram": set(), "pcorrelogram": set(),
+    "pburg": {"ar", "rho", "reflection"}, "pyule": {"ar", "reflection"},
+    "pcovar": {"ar", "rho"}, "pmodcovar": {"ar", "rho"},
+    "parma": {"ar", "ma", "rho"}, "pma": {"ma", "rho"}, "pminvar": {"ar", "reflection"},
+    "pmusic": {"eigenvalues"}, "pev": {"eigenvalues"},
+    "MT-unity": {"eigenvalues", "weights", "Sk"}, "MT-eigen": {"eigenvalues", "weights", "Sk"},
+    "MT-adapt": {"eigenvalues", "weights", "Sk"},
+}
+PARAM_NAMES = ("ar", "ma", "rho", "reflection", "eigenvalues", "weights", "Sk")
 
 
 def _params(o):
@@ -27,41 +65,512 @@ def _params(o):
     return out
 
 
+def _present(o):
+    """names of the model-parameter attributes that exist and are not None"""
+    return {n for n in PARAM_NAMES if getattr(o, n, None) is not None}
+
+
+def _elem(a, b):
+    """elementwise error  max |a-b| / (max(|a|,|b|) + 1e-3*peak);  <= 1e-10 means |a-b| <= 1e-10*max(|a|,|b|) + 1e-13*peak"""
+    a = np.asarray(a)
+    b = np.asarray(b)
+    if a.shape != b.shape:
+        return float("inf")
+    if a.size == 0:
+        return 0.0
+    if not (np.all(np.isfinite(a)) and np.all(np.isfinite(b))):
+        return float("inf")
+    m = np.maximum(np.abs(a), np.abs(b))
+    pk = float(np.max(m))
+    if pk == 0.0:
+        return 0.0
+    return float(np.max(np.abs(a - b) / (m + 1e-3 * pk)))
+
+
+def _dtft(seqs, freqs):
+    """direct evaluation of sum_n s[n] exp(-2 pi i f n) for every row s of seqs (K x N) and every f (cycles / sample): K x F.
+    No zero padding and no NFFT-indexed buffer is involved."""
+    seqs = np.atleast_2d(np.asarray(seqs)).astype(complex)
+    n = np.arange(seqs.shape[1])
+    return seqs @ np.exp(-2j * np.pi * np.outer(n, np.asarray(freqs, float)))
+
+
+def _onesided_len(isreal, nfft):
+    return C.expected_len(isreal, nfft)
+
+
+def _adapt_ref(x, tapers, lam, nfft):
+    """independent restatement of the adaptive (Percival & Walden) weighting on an nfft-point grid.  Every frequency is iterated
+    on its own (w_k = b_k^2 lambda_k, b_k = S / (lambda_k S + sigma^2 (1 - lambda_k)), S <- sum w_k S_k / sum w_k, start
+    (S_0 + S_1) / 2); only the number of iterations is decided on the whole grid (mean |S - S_prev| <= 0.0005 sigma^2 / nfft).
+    Returns the per-taper spectra (nfft x K), the weight tables after 0, 1, ... iterations and the predicted iteration count."""
+    x = np.asarray(x)
+    if x.dtype.kind in "iub":
+        x = x.astype(float)
+    N = len(x)
+    lam = np.asarray(lam, float)
+    Sk = (np.abs(_dtft(np.asarray(tapers).T * x, np.arange(nfft) / float(nfft))) ** 2).T
+    # the signal power in the precision of the samples (float32 / complex64 records: single precision, as the library computes it)
+    sig2 = np.vdot(x, x).real / float(N)
+    tol = 0.0005 * sig2 / float(nfft)
+    a = sig2 * (1.0 - lam)
+    S = (Sk[:, 0] + Sk[:, 1]) / 2.0
+    Sold = np.zeros(nfft)
+    hist = [np.ones((nfft, 1)) * lam]
+    stop = None
+    i = 0
+    while i < 100:
+        if stop is None and not (np.sum(np.abs(S - Sold)) / nfft > tol):
+            stop = i
+        if stop is not None and i >= stop + 1:
+            break
+        b = S[:, None] / (S[:, None] * lam + a)
+        w = b ** 2 * lam
+        Snew = np.sum(w * Sk, axis=1) / np.sum(w, axis=1)
+        Sold, S = S, Snew
+        i += 1
+        hist.append(w)
+    if stop is None:
+        stop = 100
+    return Sk, hist, stop
+
+
+def _adapt_check(tag, x, tapers, lam, nfft, psd, weights):
+    """the library's adaptive estimate on one grid against _adapt_ref (the predicted iteration count, or one next to it when the
+    stopping comparison is decided by rounding)"""
+    out = []
+    Sk, hist, stop = _adapt_ref(x, tapers, lam, nfft)
+    best = None
+    for j in (stop, stop - 1, stop + 1):
+        if 0 <= j < len(hist):
+            ref = np.mean(Sk * hist[j], axis=1)
+            if np.isrealobj(x):
+                ref = 2 * ref[: _onesided_len(True, nfft)]
+            e = _elem(psd, ref)
+            ew = _elem(np.asarray(weights), hist[j]) if weights is not None else 0.0
+            if best is None or max(e, ew) < max(best[0], best[1]):
+                best = (e, ew, j)
+            if max(e, ew) <= REF_TOL:
+                break
+    if best is None or max(best[0], best[1]) > REF_TOL:
+        out.append("%s: adaptive multitaper at NFFT=%d differs from the per-frequency reference iteration (predicted %d iterations; "
+                   "best match: psd err %.2e, weights err %.2e)" % (tag, nfft, stop, best[0] if best else float("inf"),
+                                                                      best[1] if best else float("inf")))
+    return out
+
+
+def _mt_tapers(x, cfg):
+    return C.sp().dpss(len(x), cfg.get("NW", 2.5), cfg.get("k"))
+
+
+def _cfg_of(p):
+    x = p["x"]
+    return p.get("cfg") or C.default_cfg(p["cls"], len(x), np.iscomplexobj(x))
+
+
+def _fs_of(p):
+    return p.get("fs", 1.0)
+
+
+def _axis_checks(tag, o, a, nfft, fs, isreal, out):
+    """the frequency axis of the object: as long as the PSD, and bin j at j * fs / NFFT"""
+    f = np.asarray(o.frequencies(), float)
+    if len(f) != len(a):
+        out.append("%s: NFFT=%d: frequencies() has %d points, the PSD %d" % (tag, nfft, len(f), len(a)))
+        return None
+    if len(a) != _onesided_len(isreal, nfft):
+        out.append("%s: NFFT=%d: the PSD has %d points, expected %d" % (tag, nfft, len(a), _onesided_len(isreal, nfft)))
+    ref = np.arange(len(f)) * (float(fs) / nfft)
+    if len(f) and np.max(np.abs(f - ref)) > 1e-12 * abs(fs):
+        out.append("%s: NFFT=%d: frequencies() is not j*fs/NFFT (max deviation %.2e)" % (tag, nfft, float(np.max(np.abs(f - ref)))))
+    return f
+
+
+def _compare_params(tag, cls, o1, o2, s1, s2, out, tol=1e-9):
+    """model parameters of two objects of one class built on two grids (s1, s2: strides to the common bins)"""
+    k1, k2 = _present(o1), _present(o2)
+    exp = EXPECTED_KEYS.get(cls)
+    if k1 != k2:
+        out.append("%s: the two NFFT values expose different model parameters: %s vs %s" % (tag, sorted(k1), sorted(k2)))
+    if exp is not None and (k1 != exp or k2 != exp):
+        out.append("%s: model parameters present %s / %s, expected %s" % (tag, sorted(k1), sorted(k2), sorted(exp)))
+    for k in sorted(k1 & k2):
+        v1, v2 = np.asarray(getattr(o1, k)), np.asarray(getattr(o2, k))
+        if k in ("weights", "Sk"):
+            if cls == "MT-adapt" or k == "Sk":
+                v1c, v2c = v1[::s1], v2[::s2]
+                if v1c.shape != v2c.shape or len(v1c) == 0:
+                    out.append("%s: '%s' has shapes %s / %s at the common bins" % (tag, k, v1c.shape, v2c.shape))
+                    continue
+                if cls == "MT-adapt":
+                    if rel(v1c, v2c) > (ADAPT_W_TOL if k == "weights" else ADAPT_TOL):
+                        out.append("%s: adaptive '%s' at the common frequencies depends on NFFT (rel err %.2e)" % (tag, k, rel(v1c, v2c)))
+                elif _elem(v1c, v2c) > ELEM_TOL:
+                    out.append("%s: '%s' at the common frequencies depends on NFFT (elementwise err %.2e)" % (tag, k, _elem(v1c, v2c)))
+            else:
+                nwin = len(np.atleast_1d(np.asarray(o1.eigenvalues)))
+                if v1.shape != (nwin, 1) or v2.shape != (nwin, 1) or rel(v1, v2) > 1e-12:
+                    out.append("%s: multitaper weights depend on NFFT or are not (k,1): shapes %s / %s" % (tag, v1.shape, v2.shape))
+            continue
+        a1 = np.atleast_1d(v1).astype(complex).ravel()
+        a2 = np.atleast_1d(v2).astype(complex).ravel()
+        if a1.shape != a2.shape or rel(a1, a2) > tol:
+            out.append("%s: model parameter '%s' depends on NFFT" % (tag, k))
+
+
 def oracle_grid(p):
-    cls, x, n1, c = p["cls"], np.asarray(p["x"]), p["n1"], p["c"]
+    cls, x, n1 = p["cls"], p["x"], p["n1"]
+    xa = np.asarray(x)
+    isreal = not np.iscomplexobj(xa)
+    n2 = p.get("n2", n1 * p.get("c", 1))
+    g = gcd(n1, n2)
+    s1, s2 = n1 // g, n2 // g          # strides to the common frequencies j/g
+    c = s2 if s1 == 1 else None
+    fs = _fs_of(p)
     # "frequency scaling off": every value the attribute accepts for off (False, 0, 0.0, numpy.False_)
     off = [False, 0, 0.0, np.False_][p.get("off", 0)]
-    o1 = C.make(cls, x, n1, 1.0, off, p.get("cfg"))
-    o2 = C.make(cls, x, n1 * c, 1.0, off, p.get("cfg"))
+    o1 = C.make(cls, x, n1, fs, off, p.get("cfg"))
+    o2 = C.make(cls, x, n2, fs, off, p.get("cfg"))
     a1, a2 = np.asarray(o1.psd), np.asarray(o2.psd)
     out = []
-    sub = a2[::c][: len(a1)]
-    m = min(len(sub), len(a1))
-    tol = 2e-3 if cls == "MT-adapt" else 1e-7
-    if m < 1 or rel(sub[:m], a1[:m]) > tol:
-        out.append("%s (%s, N=%d): PSD values at the common frequencies of NFFT=%d and NFFT=%d differ (rel err %.2e)" % (
-            cls, "complex" if np.iscomplexobj(x) else "real", len(x), n1, n1 * c, rel(sub[:m], a1[:m]) if m else float("inf")))
-    # every frequency of the coarse grid must be present in the fine grid
-    exp_common = len(a1) if np.iscomplexobj(x) or True else 0
-    if len(sub) < len(a1) - (0 if np.iscomplexobj(x) else 0):
+    tag = "%s (%s, N=%d%s)" % (cls, "real" if isreal else "complex", len(xa), "" if fs == 1.0 else ", fs=%g" % fs)
+    c1 = a1[::s1]
+    sub = a2[::s2][: len(c1)]
+    m = min(len(sub), len(c1))
+    tol = ADAPT_TOL if cls == "MT-adapt" else 1e-7
+    if m < 1 or rel(sub[:m], c1[:m]) > tol:
+        out.append("%s: PSD values at the common frequencies of NFFT=%d and NFFT=%d differ (rel err %.2e)" % (
+            tag, n1, n2, rel(sub[:m], c1[:m]) if m else float("inf")))
+    # every frequency of the coarse grid must be present in the fine grid / every common frequency j/g in both grids
+    if len(sub) < len(c1):
         # real data: the coarse grid has n1//2+1 (or (n1+1)//2) points, all of which are multiples of c on the fine grid
-        out.append("%s: the fine grid misses %d of the coarse-grid frequencies" % (cls, len(a1) - len(sub)))
+        out.append("%s: the fine grid misses %d of the coarse-grid frequencies" % (cls, len(c1) - len(sub)))
+    ncommon = _onesided_len(isreal, g)
+    if len(c1) != ncommon or len(a2[::s2]) < ncommon:
+        out.append("%s: NFFT=%d / %d: %d and %d values at the %d common frequencies" % (tag, n1, n2, len(c1), len(a2[::s2]), ncommon))
+    # elementwise agreement (spectra have a large dynamic range: the max-norm test above says nothing about the small values)
+    if m >= 1 and cls != "MT-adapt" and _elem(sub[:m], c1[:m]) > ELEM_TOL:
+        out.append("%s: PSD values at the common frequencies of NFFT=%d and NFFT=%d differ elementwise (err %.2e)" % (
+            tag, n1, n2, _elem(sub[:m], c1[:m])))
+    # frequency axis of both objects; the common frequencies carry the same frequency value
+    f1 = _axis_checks(tag, o1, a1, n1, fs, isreal, out)
+    f2 = _axis_checks(tag, o2, a2, n2, fs, isreal, out)
+    if f1 is not None and f2 is not None and m >= 1:
+        if np.max(np.abs(f2[::s2][:m] - f1[::s1][:m])) > 1e-12 * abs(fs):
+            out.append("%s: frequencies() of NFFT=%d and NFFT=%d differ at the common bins" % (tag, n1, n2))
+    if abs(o1.df - float(fs) / n1) > 1e-12 * abs(fs) or abs(o2.df - float(fs) / n2) > 1e-12 * abs(fs):
+        out.append("%s: df is not fs/NFFT (%r, %r)" % (tag, o1.df, o2.df))
+    # model parameters
     p1, p2 = _params(o1), _params(o2)
     for k in p1:
         if k in p2 and (p1[k].shape != p2[k].shape or rel(p1[k], p2[k]) > 1e-9):
             out.append("%s: model parameter '%s' depends on NFFT" % (cls, k))
+    _compare_params(tag, cls, o1, o2, s1, s2, out)
+    if cls == "MT-adapt":
+        cfg = _cfg_of(p)
+        tapers, lam = _mt_tapers(xa, cfg)
+        out += _adapt_check(tag, xa, tapers, lam, n1, a1, o1.weights)
+        out += _adapt_check(tag, xa, tapers, lam, n2, a2, o2.weights)
+        w1, w2 = np.asarray(o1.weights)[::s1], np.asarray(o2.weights)[::s2]
+        if w1.shape == w2.shape and w1.size and _elem(w1, w2) <= 1e-12 and m >= 1 and _elem(sub[:m], c1[:m]) > ELEM_TOL:
+            out.append("%s: equal adaptive weights at the common bins of NFFT=%d and %d but different PSD values (err %.2e)" % (
+                tag, n1, n2, _elem(sub[:m], c1[:m])))
     return out
 
 
+# ---------------------------------------------------------------------------------------------------------------------------
+# NFFT setter on a live object
+
+def _snapshot(o):
+    d = {}
+    for n in _present(o):
+        d[n] = np.array(getattr(o, n), copy=True)
+    return d
+
+
+def oracle_setter(p):
+    cls, x, n1, c = p["cls"], p["x"], p["n1"], p["c"]
+    xa = np.asarray(x)
+    isreal = not np.iscomplexobj(xa)
+    n2 = n1 * c
+    fs = _fs_of(p)
+    cfg = p.get("cfg")
+    out = []
+    tag = "%s setter (%s, N=%d)" % (cls, "real" if isreal else "complex", len(xa))
+    tol_x = ADAPT_TOL if cls == "MT-adapt" else ELEM_TOL
+    o = C.make(cls, x, n1, fs, False, cfg)
+    a1 = np.array(o.psd, copy=True)
+    snap1 = _snapshot(o)
+    f1 = _axis_checks(tag, o, a1, n1, fs, isreal, out)
+    new = [n2, np.int64(n2), np.int32(n2)][p.get("inttype", 0)]
+    o.NFFT = new
+    if o.NFFT != n2 or abs(o.df - float(fs) / n2) > 1e-12 * abs(fs):
+        out.append("%s: after NFFT=%d the object reports NFFT=%r df=%r" % (tag, n2, o.NFFT, o.df))
+    a2 = np.array(o.psd, copy=True)
+    snap2 = _snapshot(o)
+    f2 = _axis_checks(tag, o, a2, n2, fs, isreal, out)
+    fresh = C.make(cls, x, n2, fs, False, cfg)
+    af = np.asarray(fresh.psd)
+    if _elem(a2, af) > 1e-12:
+        out.append("%s: PSD after setting NFFT=%d on a live NFFT=%d object differs from a fresh NFFT=%d object (err %.2e)" % (
+            tag, n2, n1, n2, _elem(a2, af)))
+    sub = a2[::c][: len(a1)]
+    if len(sub) != len(a1):
+        out.append("%s: after NFFT=%d the PSD misses %d of the NFFT=%d frequencies" % (tag, n2, len(a1) - len(sub), n1))
+    else:
+        e = rel(sub, a1) if cls == "MT-adapt" else _elem(sub, a1)
+        if e > tol_x:
+            out.append("%s: PSD after NFFT=%d differs from the NFFT=%d values at the common frequencies (err %.2e)" % (tag, n2, n1, e))
+        if f1 is not None and f2 is not None and np.max(np.abs(f2[::c][: len(f1)] - f1)) > 1e-12 * abs(fs):
+            out.append("%s: frequencies() after NFFT=%d differs from the NFFT=%d axis at the common bins" % (tag, n2, n1))
+    exp = EXPECTED_KEYS.get(cls)
+    if set(snap1) != set(snap2) or (exp is not None and set(snap1) != exp):
+        out.append("%s: model parameters before / after the NFFT change: %s / %s (expected %s)" % (
+            tag, sorted(snap1), sorted(snap2), sorted(exp or [])))
+    for k in sorted(set(snap1) & set(snap2)):
+        if k in ("ar", "ma", "rho", "reflection", "eigenvalues") or (k == "weights" and cls != "MT-adapt"):
+            v1 = np.atleast_1d(snap1[k]).astype(complex)
+            v2 = np.atleast_1d(snap2[k]).astype(complex)
+            if v1.shape != v2.shape or rel(v1, v2) > 1e-12:
+                out.append("%s: model parameter '%s' changed when NFFT was changed" % (tag, k))
+        fv = getattr(fresh, k, None)
+        if fv is None or _elem(np.atleast_1d(snap2[k]).astype(complex), np.atleast_1d(np.asarray(fv)).astype(complex)) > 1e-12:
+            out.append("%s: '%s' after the NFFT change differs from a fresh NFFT=%d object" % (tag, k, n2))
+    # setting the same value again changes nothing; going back gives the first estimate again
+    o.NFFT = n2
+    if _elem(np.asarray(o.psd), a2) > 0.0:
+        out.append("%s: re-assigning the same NFFT changed the PSD" % tag)
+    o.NFFT = n1
+    a3 = np.asarray(o.psd)
+    if _elem(a3, a1) > 1e-12:
+        out.append("%s: NFFT %d -> %d -> %d does not give the first estimate again (err %.2e)" % (tag, n1, n2, n1, _elem(a3, a1)))
+    return out
+
+
+# ---------------------------------------------------------------------------------------------------------------------------
+# other layouts of the same estimate (get_converted_psd), matched by frequency VALUE
+
+def oracle_sides(p):
+    cls, x, n1, c, side = p["cls"], p["x"], p["n1"], p["c"], p["side"]
+    xa = np.asarray(x)
+    isreal = not np.iscomplexobj(xa)
+    n2 = n1 * c
+    fs = _fs_of(p)
+    out = []
+    tag = "%s %s (%s, N=%d)" % (cls, side, "real" if isreal else "complex", len(xa))
+    res = []
+    for n in (n1, n2):
+        o = C.make(cls, x, n, fs, False, p.get("cfg"))
+        P = np.asarray(o.get_converted_psd(side))
+        F = np.asarray(o.frequencies(side), float)
+        if len(P) != len(F) or len(P) != n:
+            out.append("%s: NFFT=%d: converted PSD has %d points, frequencies('%s') %d" % (tag, n, len(P), side, len(F)))
+            return out
+        lo = -(n // 2) if side == "centerdc" else 0
+        if np.max(np.abs(F - (np.arange(n) + lo) * (float(fs) / n))) > 1e-12 * abs(fs):
+            out.append("%s: NFFT=%d: frequencies('%s') is not (j%+d)*fs/NFFT" % (tag, n, side, lo))
+        res.append((P, F))
+    (P1, F1), (P2, F2) = res
+    q1 = F1 * n2 / float(fs)
+    q2 = F2 * n2 / float(fs)
+    k1, k2 = np.rint(q1).astype(int), np.rint(q2).astype(int)
+    if np.max(np.abs(q1 - k1)) > 1e-6 or np.max(np.abs(q2 - k2)) > 1e-6:
+        out.append("%s: frequencies are not multiples of fs/%d" % (tag, n2))
+        return out
+    pos = {int(k): i for i, k in enumerate(k2)}
+    missing = [int(k) for k in k1 if int(k) not in pos]
+    if missing:
+        out.append("%s: %d frequencies of the NFFT=%d axis are absent from the NFFT=%d axis" % (tag, len(missing), n1, n2))
+    keep = np.array([int(k) in pos for k in k1])
+    sub = P2[[pos[int(k)] for k in k1[keep]]]
+    e = rel(sub, P1[keep]) if cls == "MT-adapt" else _elem(sub, P1[keep])
+    if not keep.any() or e > (ADAPT_TOL if cls == "MT-adapt" else ELEM_TOL):
+        out.append("%s: values at equal frequencies of NFFT=%d and NFFT=%d differ (err %.2e)" % (tag, n1, n2, e))
+    return out
+
+
+# ---------------------------------------------------------------------------------------------------------------------------
+# multitaper: per-taper complex spectra, weights, eigenvalues; tapers handed in; default k
+
+def oracle_mt(p):
+    s = C.sp()
+    x = np.asarray(p["x"])
+    isreal = not np.iscomplexobj(x)
+    N = len(x)
+    NW, k, meth, n1, c = p["NW"], p.get("k"), p["method"], p["n1"], p["c"]
+    n2 = n1 * c
+    out = []
+    tag = "pmtm %s NW=%s k=%s (%s, N=%d)" % (meth, NW, k, "real" if isreal else "complex", N)
+    tapers, lam = s.dpss(N, NW, k)
+    K = len(lam)
+    res = []
+    for n in (n1, n2):
+        if p.get("ev"):
+            r = s.pmtm(x, e=lam.copy(), v=tapers.copy(), NFFT=n, method=meth, show=False)
+        else:
+            r = s.pmtm(x, NW=NW, k=k, NFFT=n, method=meth, show=False)
+        res.append((np.asarray(r[0]), np.asarray(r[1]), np.asarray(r[2])))
+    (S1, w1, e1), (S2, w2, e2) = res
+    if S1.shape != (K, n1) or S2.shape != (K, n2):
+        out.append("%s: per-taper spectra have shapes %s / %s, expected (%d, %d) / (%d, %d)" % (tag, S1.shape, S2.shape, K, n1, K, n2))
+        return out
+    # independent reference: the transform of taper * data evaluated at the frequencies j/n1 directly
+    ref = _dtft(tapers.T * x, np.arange(n1) / float(n1))
+    for name, v in (("NFFT=%d" % n1, S1), ("NFFT=%d at the common bins" % n2, S2[:, ::c])):
+        if _elem(v, ref) > REF_TOL:
+            out.append("%s: complex per-taper spectra at %s differ from the transform of taper*data (err %.2e)" % (tag, name, _elem(v, ref)))
+    if _elem(S2[:, ::c], S1) > ELEM_TOL:
+        out.append("%s: complex per-taper spectra at the common frequencies depend on NFFT (err %.2e)" % (tag, _elem(S2[:, ::c], S1)))
+    if e1.shape != lam.shape or rel(e1, lam) > 1e-12 or rel(e2, lam) > 1e-12:
+        out.append("%s: eigenvalues depend on NFFT or differ from dpss(N, NW, k)" % tag)
+    if meth in ("unity", "eigen"):
+        wref = np.ones((K, 1)) if meth == "unity" else (lam / (np.arange(K) + 1.0)).reshape(K, 1)
+        if w1.shape != (K, 1) or w2.shape != (K, 1) or rel(w1, wref) > 1e-12 or rel(w2, wref) > 1e-12:
+            out.append("%s: weights %s / %s are not the (k,1) NFFT-independent table" % (tag, w1.shape, w2.shape))
+    else:
+        if w1.shape != (n1, K) or w2.shape != (n2, K):
+            out.append("%s: adaptive weights have shapes %s / %s" % (tag, w1.shape, w2.shape))
+            return out
+        if rel(w2[::c], w1) > ADAPT_W_TOL:
+            out.append("%s: adaptive weights at the common frequencies depend on NFFT (rel err %.2e)" % (tag, rel(w2[::c], w1)))
+        for n, S, w in ((n1, S1, w1), (n2, S2, w2)):
+            est = np.mean((np.abs(S) ** 2).T * w, axis=1)
+            if isreal:
+                est = 2 * est[: _onesided_len(True, n)]
+            out += _adapt_check(tag, x, tapers, lam, n, est, w)
+    # the class, with the tapers handed in or computed, on both grids
+    objs = []
+    for n in (n1, n2):
+        if p.get("ev"):
+            o = s.MultiTapering(x, e=lam.copy(), v=tapers.copy(), method=meth, NFFT=n, scale_by_freq=False)
+        else:
+            o = s.MultiTapering(x, NW=NW, k=k, method=meth, NFFT=n, scale_by_freq=False)
+        a = np.asarray(o.psd)
+        S, w = (S1, w1) if n == n1 else (S2, w2)
+        est = np.mean((np.abs(S) ** 2).T * w, axis=1) if meth == "adapt" else np.mean(np.abs(S) ** 2 * w, axis=0)
+        if isreal:
+            est = 2 * est[: _onesided_len(True, n)]
+        if _elem(a, est) > 1e-12:
+            out.append("%s: class PSD at NFFT=%d is not mean(|Sk|^2 * weights) of pmtm on the same grid (err %.2e)" % (tag, n, _elem(a, est)))
+        objs.append((o, a))
+    (o1, a1), (o2, a2) = objs
+    sub = a2[::c][: len(a1)]
+    e = rel(sub, a1) if meth == "adapt" else _elem(sub, a1)
+    if len(sub) != len(a1) or e > (ADAPT_TOL if meth == "adapt" else ELEM_TOL):
+        out.append("%s: class PSD at the common frequencies of NFFT=%d and %d differ (err %.2e)" % (tag, n1, n2, e))
+    _compare_params(tag, "MT-" + meth, o1, o2, 1, c, out)
+    return out
+
+
+# ---------------------------------------------------------------------------------------------------------------------------
+# options of the estimators
+
+def _corr_ref(x, y, lag, window, norm, method, nfft):
+    """Blackman-Tukey (cross-)correlogram at the frequencies j/nfft, by direct summation over the lags:
+    r[0] + sum_m w[m] (r_xy[m] e^{-i 2 pi f m} + conj(r_yx[m]) e^{+i 2 pi f m}), real part"""
+    s = C.sp()
+    x = np.asarray(x)
+    yy = x if y is None else np.asarray(y)
+    if method == "xcorr":
+        rxy = np.asarray(s.xcorr(x, yy, maxlags=lag, norm=norm)[0])[lag:]
+        ryx = np.asarray(s.xcorr(yy, x, maxlags=lag, norm=norm)[0])[lag:]
+    else:
+        rxy = np.asarray(s.CORRELATION(x, yy, maxlags=lag, norm=norm))
+        ryx = np.asarray(s.CORRELATION(yy, x, maxlags=lag, norm=norm))
+    if y is None:
+        ryx = rxy
+    w = np.asarray(s.Window(2 * lag + 1, window).data)[lag + 1:]
+    f = np.arange(nfft) / float(nfft)
+    mm = np.arange(1, lag + 1)
+    E = np.exp(-2j * np.pi * np.outer(f, mm))
+    return np.real(rxy[0] + E @ (w * rxy[1:]) + np.conj(E) @ (w * np.conj(ryx[1:])))
+
+
+def _opt_eval(p, nfft):
+    """(values with the frequency along axis 0, {parameter: value}, numpy reference or None) of one option case on one grid"""
+    s = C.sp()
+    x = p["x"]
+    xa = np.asarray(x)
+    isreal = not np.iscomplexobj(xa)
+    opt = p["opt"]
+    L = _onesided_len(isreal, nfft)
+    if opt == "cross":
+        o = s.pcorrelogram(x, lag=p["lag"], window=p["window"], NFFT=nfft, scale_by_freq=False)
+        o.data_y = p["y"]
+        ref = _corr_ref(xa, p["y"], p["lag"], p["window"], "unbiased", "xcorr", nfft)
+        return np.asarray(o.psd), {}, (2 * ref[:L] if isreal else ref)
+    if opt == "CORR":
+        y = p.get("y")
+        v = s.CORRELOGRAMPSD(x, y, lag=p["lag"], window=p["window"], norm=p["norm"], NFFT=nfft, correlation_method=p["method"])
+        return np.asarray(v), {}, _corr_ref(xa, y, p["lag"], p["window"], p["norm"], p["method"], nfft)
+    if opt == "subspace":
+        f = s.pmusic if p["cls"] == "pmusic" else s.pev
+        kw = {"threshold": p["threshold"]} if p.get("threshold") is not None else {"criteria": p["criteria"]}
+        o = f(x, p["order"], NSIG=None, NFFT=nfft, **kw)
+        return np.asarray(o.psd), {"eigenvalues": o.eigenvalues}, None
+    if opt == "yule-norm":
+        o = s.pyule(x, p["order"], norm=p["norm"], NFFT=nfft, scale_by_freq=False)
+        return np.asarray(o.psd), {"ar": o.ar, "reflection": o.reflection}, None
+    if opt == "burg-criteria":
+        o = s.pburg(x, p["order"], criteria=p["criteria"], NFFT=nfft, scale_by_freq=False)
+        return np.asarray(o.psd), {"ar": o.ar, "rho": o.rho, "reflection": o.reflection}, None
+    if opt == "detrend":
+        o = s.Periodogram(x, window=p["window"], detrend="mean", NFFT=nfft, scale_by_freq=False)
+        return np.asarray(o.psd), {}, None
+    if opt == "sper2d":
+        v = np.asarray(s.speriodogram(x, NFFT=nfft, detrend=p["detrend"], scale_by_freq=False, window=p["window"]))
+        r = xa.shape[0]
+        w = np.asarray(s.Window(r, p["window"]).data)
+        cols = []
+        for j in range(xa.shape[1]):
+            col = xa[:, j] * w - (np.mean(xa[:, j]) if p["detrend"] else 0)
+            cols.append(np.abs(_dtft(col, np.arange(L) / float(nfft))[0]) ** 2 / r)
+        return v, {}, np.array(cols).T
+    raise ValueError(opt)
+
+
+def oracle_opt(p):
+    n1, c = p["n1"], p["c"]
+    n2 = n1 * c
+    xa = np.asarray(p["x"])
+    isreal = not np.iscomplexobj(xa)
+    tag = "%s %s (%s, N=%d)" % (p["opt"], {k: v for k, v in p.items() if k in (
+        "cls", "lag", "window", "norm", "method", "criteria", "threshold", "order", "detrend")}, "real" if isreal else "complex", xa.shape[0])
+    out = []
+    v1, q1, r1 = _opt_eval(p, n1)
+    v2, q2, r2 = _opt_eval(p, n2)
+    twosided = p["opt"] == "CORR"
+    for n, v, r in ((n1, v1, r1), (n2, v2, r2)):
+        if v.shape[0] != (n if twosided else _onesided_len(isreal, n)):
+            out.append("%s: NFFT=%d: %d values" % (tag, n, v.shape[0]))
+        if r is not None and _elem(v, r) > REF_TOL:
+            out.append("%s: NFFT=%d: values differ from the direct evaluation at the grid frequencies (err %.2e)" % (tag, n, _elem(v, r)))
+    sub = v2[::c][: len(v1)]
+    if sub.shape != v1.shape or _elem(sub, v1) > ELEM_TOL:
+        out.append("%s: values at the common frequencies of NFFT=%d and NFFT=%d differ (shapes %s / %s, err %.2e)" % (
+            tag, n1, n2, v1.shape, sub.shape, _elem(sub, v1)))
+    if set(q1) != set(q2) or any(v is None for v in list(q1.values()) + list(q2.values())):
+        out.append("%s: model parameters missing on one grid" % tag)
+    else:
+        for k in q1:
+            a = np.atleast_1d(np.asarray(q1[k])).astype(complex).ravel()
+            b = np.atleast_1d(np.asarray(q2[k])).astype(complex).ravel()
+            if a.shape != b.shape or rel(a, b) > 1e-12:
+                out.append("%s: model parameter '%s' depends on NFFT" % (tag, k))
+    return out
+
+
+# ---------------------------------------------------------------------------------------------------------------------------
+
 def impl_glue(p):
-    o = C.make(p["cls"], p["x"], p["nfft"], 1.0, False)
+    o = C.make(p["cls"], p["x"], p["nfft"], _fs_of(p), False, p.get("cfg"))
     return [np.asarray(o.psd)]
 
 
 def model_glue(p):
     x = np.asarray(p["x"])
-    raw = C.raw_two_sided(p["cls"], x, p["nfft"], 1.0)
-    return C.glue_request(p["cls"], raw, np.isrealobj(x), p["nfft"], False, 1.0)
+    raw = C.raw_two_sided(p["cls"], x, p["nfft"], _fs_of(p), p.get("cfg"))
+    return C.glue_request(p["cls"], raw, np.isrealobj(x), p["nfft"], False, _fs_of(p))
 
 
 def impl_dft(p):
@@ -74,25 +583,118 @@ def model_dft(p):
 
 def _key(p):
     x = np.asarray(p["x"])
-    return "%s|%s|%s|%s|%d" % (p.get("cls"), p.get("n1", p.get("nfft")), p.get("c"), np.iscomplexobj(x), hash(x.tobytes()) & 0xFFFFF)
+    base = "%s|%s|%s|%s|%d" % (p.get("cls"), p.get("n1", p.get("nfft")), p.get("c"), np.iscomplexobj(x), hash(x.tobytes()) & 0xFFFFF)
+    extra = [(k, p[k]) for k in sorted(p) if k not in ("cls", "n1", "nfft", "c", "x", "y", "variant") and p[k] is not None]
+    if not extra:
+        return base
+    return base + "|" + repr([(k, sorted(v.items()) if isinstance(v, dict) else v) for k, v in extra])
 
 
 def _tags(p):
     n = p.get("n1", p.get("nfft"))
-    return ["cls:%s" % p.get("cls", "dft"), "complex" if np.iscomplexobj(p["x"]) else "real", "nfft:" + ("odd" if n % 2 else "even"),
-            "c:%s" % p.get("c", "-")]
+    x = np.asarray(p["x"])
+    t = ["cls:%s" % p.get("cls", p.get("opt", "dft")), "complex" if np.iscomplexobj(x) else "real", "nfft:" + ("odd" if n % 2 else "even"),
+         "c:%s" % p.get("c", "-"), "N:%d" % x.shape[0]]
+    if "fs" in p:
+        t.append("fs:%g" % p["fs"])
+    if "n2" in p:
+        t.append("pair:gcd")
+    if "form" in p:
+        t.append("form:%s" % p["form"])
+    if "opt" in p:
+        t.append("opt:%s" % p["opt"])
+    if "side" in p:
+        t.append("side:%s" % p["side"])
+    if n * (p.get("c") or 1) >= 1024:
+        t.append("fine-grid>=1024")
+    return t
 
 
 KINDS = {
     "grid": {"oracle": oracle_grid, "key": _key, "tags": _tags},
+    "setter": {"oracle": oracle_setter, "key": _key, "tags": _tags},
+    "sides": {"oracle": oracle_sides, "key": _key, "tags": _tags},
+    "mt": {"oracle": oracle_mt, "key": _key, "tags": _tags},
+    "opt": {"oracle": oracle_opt, "key": _key, "tags": _tags},
     "glue": {"impl": impl_glue, "model": model_glue, "rtol": 1e-9, "atol": 1e-300, "key": _key, "tags": _tags},
     "dft": {"impl": impl_dft, "model": model_dft, "rtol": 1e-10, "atol": 1e-12, "key": _key, "tags": _tags},
 }
+
+SIZES = [7, 9, 13, 23, 25, 64, 101, 300]
+BIG_PAIRS = [(24, 4), (24, 5), (25, 7), (32, 32), (127, 2), (1024, 2), (1024, 4), (1025, 2), (2048, 2)]
+GCD_PAIRS = [(24, 36), (25, 35), (30, 42), (27, 45)]
+BASE_PAIRS = [(24, 2), (25, 2), (25, 3), (32, 3), (27, 2)]
+FS_VALUES = [0.5, 1000, 44100.0]
+SIDE_PAIRS = [(24, 2), (25, 2), (25, 3), (24, 3)]
+OPT_PAIRS = [(24, 2), (25, 3), (11, 2), (12, 2)]
+BURG_CRITERIA = ["AIC", "AICc", "KIC", "AKICc", "FPE", "MDL"]
+
+
+def cfg_for(cls, N, j=0):
+    """estimator parameters inside the documented domain for data of length N (small N: small orders / lags / NW)"""
+    big = N >= 64
+    if cls == "Periodogram":
+        return {"window": ["hann", "hamming", "rectangular", "blackman"][j % 4]}
+    if cls == "pcorrelogram":
+        lag = [5, 20, N // 4, 31][j % 4] if big else min(N - 1, [5, 3, N // 2, N - 1][j % 4])
+        return {"lag": lag, "window": ["hamming", "hann"][(j // 4) % 2]}
+    if cls == "pburg":
+        return {"order": min(N - 2, 8 if big else 4)}
+    if cls == "pyule":
+        return {"order": min(N - 1, 8 if big else 4)}
+    if cls == "pminvar":
+        return {"order": min(N // 2, 8 if big else 4)}
+    if cls in ("pcovar", "pmodcovar"):
+        return {"order": min(N // 2 - 1, 8 if big else 4)}
+    if cls == "parma":
+        if N < 12:
+            return {"order": 1, "Q": 1, "lag": 4}
+        if N < 20:
+            return {"order": 2, "Q": 2, "lag": 7}
+        return {"order": 4, "Q": 4, "lag": 16} if big else {"order": 3, "Q": 3, "lag": 8}
+    if cls == "pma":
+        if N < 12:
+            return {"Q": 1, "M": 3}
+        return {"Q": 5, "M": 15} if big else {"Q": 3, "M": 7}
+    if cls in ("pmusic", "pev"):
+        P = min(10 if big else 6, (2 * N) // 3 - 1)
+        return {"order": P, "nsig": min(2, P - 1)}
+    if cls.startswith("MT"):
+        NW = [2.5, 4.0][j % 2] if big else (2.5 if N / 2.0 > 2.5 else 1.5)
+        return {"NW": NW, "k": [int(2 * NW) - 1, int(2 * NW), 2][(j // 2) % 3]}
+    raise ValueError(cls)
+
+
+def _data(nrng, N, cplx, tone=True):
+    x = nrng.standard_normal(N) + (np.cos(0.9 * np.arange(N)) if tone else 0)
+    if cplx:
+        x = x + 1j * nrng.standard_normal(N)
+    return x
+
+
+def _as_form(nrng, N, form):
+    """the same kind of record in another accepted input form"""
+    if form in ("int", "int32", "list"):
+        v = nrng.integers(-9, 10, N)
+        if not np.any(v):
+            v[0] = 1
+        if form == "list":
+            return [float(t) for t in v]
+        return v.astype(np.int32 if form == "int32" else np.int64)
+    if form == "clist":
+        return [complex(float(a), float(b)) for a, b in zip(nrng.integers(-9, 10, N), nrng.integers(1, 10, N))]
+    if form == "float32":
+        return (nrng.standard_normal(N) + np.cos(0.9 * np.arange(N))).astype(np.float32)
+    if form == "complex64":
+        return (nrng.standard_normal(N) + 1j * nrng.standard_normal(N)).astype(np.complex64)
+    raise ValueError(form)
 
 
 def gen(rng, nrng, tier):
     N = 24
     n = np.arange(N)
+    quick = tier == "quick"
+    ncls = len(C.CLASSES)
     reps = 2 if tier == "quick" else 25
     for r in range(reps):
         for cplx in (True, False):
@@ -146,3 +748,141 @@ def gen(rng, nrng, tier):
         nfft = int(nrng.integers(max(1, L - 3), 40))
         x = nrng.standard_normal(L) + 1j * nrng.standard_normal(L)
         yield ("dft", {"x": x, "nfft": nfft})
+
+    # ---- data lengths other than 24 (odd, tiny, long) at n1 in {nmin, nmin+1, N, N+1}, c in {2, 3}
+    r0 = int(nrng.integers(0, 1 << 16))
+    for iN, Nn in enumerate(SIZES):
+        xs = {True: _data(nrng, Nn, True), False: _data(nrng, Nn, False)}
+        for ic, cls in enumerate(C.CLASSES):
+            v = iN + ic + r0
+            cfg = cfg_for(cls, Nn, v)
+            nmin = C.min_nfft(cls, Nn, cfg)
+            lo = Nn if (cls == "Periodogram" or cls.startswith("MT")) else nmin
+            cand = [(a, c) for a in sorted({nmin, nmin + 1, Nn, Nn + 1}) if a >= lo for c in (2, 3)]
+            if quick:
+                cand = [cand[v % len(cand)], cand[(v + 3) % len(cand)]]
+            for t, (n1, c) in enumerate(cand):
+                cplx = bool(((v // 8) + t) % 2) if quick else bool(nrng.integers(0, 2))
+                q = {"cls": cls, "x": xs[cplx], "n1": n1, "c": c, "cfg": cfg, "off": (v // 2 + t) % 4}
+                yield ("grid", q)
+                if (quick and t == 0 and (iN + ic) % 4 == 0) or (not quick and t == (v % len(cand)) and Nn <= 101):
+                    yield ("glue", {"cls": cls, "x": xs[cplx], "nfft": n1, "cfg": cfg})
+                    yield ("glue", {"cls": cls, "x": xs[cplx], "nfft": n1 * c, "cfg": cfg})
+    # ---- larger factors, powers of two, long grids (N = 24), and non-multiple pairs compared at the gcd bins
+    xs = {True: _data(nrng, N, True), False: _data(nrng, N, False)}
+    x300 = {True: _data(nrng, 300, True), False: _data(nrng, 300, False)}
+    for ic, cls in enumerate(C.CLASSES):
+        v = ic + r0
+        big = BIG_PAIRS if not quick else [BIG_PAIRS[(v + 3 * t) % len(BIG_PAIRS)] for t in (0, 1, 2)]
+        for t, (n1, c) in enumerate(big):
+            cplx = bool((v // 3 + t) % 2)
+            yield ("grid", {"cls": cls, "x": xs[cplx], "n1": n1, "c": c, "off": (v + t) % 4})
+            if (not quick and n1 * c <= 2050 and t % 3 == v % 3) or (quick and t == 0 and n1 * c <= 1024):
+                yield ("glue", {"cls": cls, "x": xs[cplx], "nfft": n1 * c})
+        for t, (n1, n2) in enumerate(GCD_PAIRS if not quick else [GCD_PAIRS[v % 4], GCD_PAIRS[(v + 1 + (v // 4) % 3) % 4]]):
+            cplx = bool((v // 2 + t) % 2)
+            yield ("grid", {"cls": cls, "x": xs[cplx], "n1": n1, "n2": n2})
+            yield ("grid", {"cls": cls, "x": xs[not cplx], "n1": n2, "n2": n1, "fs": FS_VALUES[(v + t) % 3]})
+        if not quick:
+            cfg = cfg_for(cls, 300, v)
+            for t, (n1, c) in enumerate([(1024, 2), (512, 4), (300, 7)]):
+                yield ("grid", {"cls": cls, "x": x300[bool((v + t) % 2)], "n1": n1, "c": c, "cfg": cfg})
+    # ---- sampling frequency other than 1 (minimum variance: sampling / real(psi); arma2psd: rho / T; df = sampling / NFFT)
+    for ic, cls in enumerate(C.CLASSES):
+        v = ic + r0
+        for jf, fs in enumerate(FS_VALUES):
+            prs = BASE_PAIRS + [BIG_PAIRS[(v + jf) % len(BIG_PAIRS)]] if not quick else [BASE_PAIRS[(v + 2 * jf) % 5], BASE_PAIRS[(v + 2 * jf + 1 + (v // 5) % 4) % 5]]
+            for t, (n1, c) in enumerate(prs):
+                cplx = bool((v // 5 + jf + t) % 2)
+                yield ("grid", {"cls": cls, "x": xs[cplx], "n1": n1, "c": c, "fs": fs, "off": (v // 3 + t) % 4})
+                if t == 0 and (not quick or jf == v % 3):
+                    yield ("glue", {"cls": cls, "x": xs[cplx], "nfft": n1 * c, "fs": fs})
+    # ---- accepted input forms of the samples
+    forms = ["int", "list", "float32", "complex64", "clist", "int32"]
+    for ic, cls in enumerate(C.CLASSES):
+        v = ic + r0
+        for jf, form in enumerate(forms):
+            xf = _as_form(nrng, N, form)
+            n1, c = BASE_PAIRS[(v // 2 + jf) % 5]
+            yield ("grid", {"cls": cls, "x": xf, "n1": n1, "c": c, "form": form})
+    # ---- NFFT setter on a live object
+    for ic, cls in enumerate(C.CLASSES):
+        v = ic + r0
+        prs = (BASE_PAIRS + [(24, 4), (127, 2)]) if not quick else [(24, 2), (25, 3)]
+        for t, (n1, c) in enumerate(prs):
+            cplx = bool((v // 2 + t) % 2)
+            yield ("setter", {"cls": cls, "x": _data(nrng, N, cplx), "n1": n1, "c": c, "inttype": (v // 4 + t) % 3})
+        Nn = SIZES[v % len(SIZES)]
+        cfg = cfg_for(cls, Nn, v)
+        n1 = max(C.min_nfft(cls, Nn, cfg), Nn if (cls == "Periodogram" or cls.startswith("MT")) else 0) + (v // 8) % 2
+        yield ("setter", {"cls": cls, "x": _data(nrng, Nn, bool((v // 3) % 2)), "n1": n1, "c": 2 + (v // 5) % 2, "cfg": cfg,
+                          "fs": ([1.0] + FS_VALUES)[(v // 2) % 4]})
+    # ---- the other layouts of the estimate, matched by frequency value
+    for ic, cls in enumerate(C.CLASSES):
+        v = ic + r0
+        combos = [(pr, cplx, side) for pr in SIDE_PAIRS for (cplx, side) in ((False, "twosided"), (False, "centerdc"), (True, "centerdc"))]
+        if quick:
+            combos = [combos[(v * 5 + 7 * t) % len(combos)] for t in range(5)]
+        for t, ((n1, c), cplx, side) in enumerate(combos):
+            yield ("sides", {"cls": cls, "x": _data(nrng, N, cplx), "n1": n1, "c": c, "side": side})
+    # ---- multitaper: complex per-taper spectra, weights, eigenvalues; tapers handed in; default k
+    mt = []
+    for jm, meth in enumerate(("unity", "eigen", "adapt")):
+        mt.append({"method": meth, "NW": 2.5, "k": 4, "n1": 24, "c": 3, "ev": True})
+        mt.append({"method": meth, "NW": 2.5, "k": None, "n1": 24, "c": 3})
+        mt.append({"method": meth, "NW": [2.0, 3.0, 4.0][(jm + r0) % 3], "k": None, "n1": 25, "c": 2})
+        for t, (n1, c) in enumerate(BASE_PAIRS if not quick else [BASE_PAIRS[(jm + r0) % 5]]):
+            mt.append({"method": meth, "NW": [1.5, 2.0, 2.5, 3.0, 4.0][(t + jm + r0) % 5], "k": 2 + (t + r0) % 2, "n1": n1, "c": c,
+                       "ev": bool((t + jm) % 2)})
+        if not quick:
+            mt.append({"method": meth, "NW": 2.5, "k": 4, "n1": 1024, "c": 2})
+            mt.append({"method": meth, "NW": 4.0, "k": None, "n1": 32, "c": 32, "ev": True})
+    for t, q in enumerate(mt):
+        q = dict(q)
+        q["cls"] = "MT-" + q["method"]
+        q["x"] = _data(nrng, N, bool((t + r0) % 2))
+        yield ("mt", q)
+    for t, Nn in enumerate(SIZES if not quick else [SIZES[r0 % 8], SIZES[(r0 + 3) % 8]]):
+        NW = 1.5 if Nn < 12 else [2.0, 2.5, 3.0][(t + r0) % 3]
+        meth = ("adapt", "eigen", "unity")[(t + r0 // 3) % 3]
+        yield ("mt", {"cls": "MT-" + meth, "method": meth, "NW": NW, "k": None if t % 2 else int(2 * NW) - 1, "n1": Nn + t % 2,
+                      "c": 2 + (t // 2) % 2, "x": _data(nrng, Nn, bool((t // 2 + r0) % 2)), "ev": bool((t // 4) % 2)})
+    # ---- options of the estimators
+    opts = []
+    for cplx in (False, True):
+        opts.append({"opt": "cross", "lag": 5, "window": "hamming", "cplx": cplx, "y": True})
+        for jm, method in enumerate(("xcorr", "CORRELATION")):
+            for jn, norm in enumerate(("unbiased", "biased")):
+                opts.append({"opt": "CORR", "lag": 5, "window": ["hamming", "hann", "rectangular", "bartlett"][(2 * jm + jn + cplx) % 4],
+                             "method": method, "norm": norm, "cplx": cplx, "y": bool((jm + jn + cplx + r0) % 2)})
+        for cls in ("pmusic", "pev"):
+            for crit in ("aic", "mdl"):
+                opts.append({"opt": "subspace", "cls": cls, "order": 6, "criteria": crit, "cplx": cplx})
+            for th in (1, 1.5, 3.0):
+                opts.append({"opt": "subspace", "cls": cls, "order": 6, "threshold": th, "cplx": cplx})
+        opts.append({"opt": "yule-norm", "cls": "pyule", "order": 4, "norm": "unbiased", "cplx": cplx})
+        for crit in BURG_CRITERIA:
+            opts.append({"opt": "burg-criteria", "cls": "pburg", "order": 8, "criteria": crit, "cplx": cplx})
+        opts.append({"opt": "detrend", "cls": "Periodogram", "window": "hann", "cplx": cplx, "fullgrid": True})
+        for det in (True, False):
+            opts.append({"opt": "sper2d", "window": ["hamming", "hann"][int(det)], "detrend": det, "cplx": cplx, "fullgrid": True, "twod": True})
+    for t, q0 in enumerate(opts):
+        q0 = dict(q0)
+        cplx = q0.pop("cplx")
+        full = q0.pop("fullgrid", False)
+        twod = q0.pop("twod", False)
+        wants_y = q0.pop("y", False)
+        prs = OPT_PAIRS[:2] if full else OPT_PAIRS
+        if quick:
+            prs = [prs[(t + r0) % len(prs)], prs[(t + r0 + 1 + (t // 4) % (len(prs) - 1)) % len(prs)]] if len(prs) > 2 else prs[(t + r0) % 2:][:1]
+        for (n1, c) in prs:
+            q = dict(q0)
+            if twod:
+                cols = 2 + (t + n1) % 3
+                q["x"] = nrng.standard_normal((N, cols)) + (1j * nrng.standard_normal((N, cols)) if cplx else 0)
+            else:
+                q["x"] = _data(nrng, N, cplx)
+            if wants_y:
+                q["y"] = _data(nrng, N, cplx, tone=False) + 0.5 * np.asarray(q["x"])
+            q["n1"], q["c"] = n1, c
+            yield ("opt", q)
